@@ -43,6 +43,10 @@ def run(tier, seed):
     rep = Report("C08", tier, seed)
     rep.add_mc("MC_OutFile", tlc.model_check("MC_OutFile", "MC_OutFile.cfg" if tier == "thorough" else "MC_OutFile_quick.cfg", must_take=["Step", "Finish"]),
                note="warm = TRUE: records at steps ops, 2 ops, ... <= Nsteps (WarmFinalRecord)")
+    rep.add_mc("MC_Ladim", tlc.model_check("MC_Ladim", "MC_Ladim.cfg" if tier == "thorough" else "MC_Ladim_quick.cfg", must_take=["Restart", "Continue"], timeout=3000),
+               note="RestartEq: a warm start from every record continues as the uninterrupted run")
+    rep.add_mc("MC_Ladim_maxpid(control)", tlc.expect_refuted("MC_Ladim", "MC_Ladim_maxpid.cfg", "RestartEq"),
+               note="control: restoring the identifier counter from the highest pid on file (pinned design) is refuted")
     rng = random.Random(seed)
     fams = [family(rng) for _ in range(400 if tier == "thorough" else 90)]
     res = pmap("harness.checks.c08", "run_family", fams)
